@@ -4,7 +4,7 @@
 From Coq Require Import NArith List Bool.
 Import ListNotations.
 From CXV Require Import Gen.TokTy Parse.Balanced Parse.BalancedThms Parse.Declarator Parse.DeclSpec Parse.DeclThms Parse.DeclPins.
-From CXV Require Import Parse.EnumList Parse.Specs Parse.VarStmt.
+From CXV Require Import Parse.EnumList Parse.Specs Parse.VarStmt Parse.FnTail.
 From CXV Require Import Parse.Fold Parse.FoldThms Parse.FoldPlace.
 Open Scope N_scope.
 
@@ -68,6 +68,16 @@ Theorem function_declaration_decodes_partial : forall rt ps va n rest,
   ev (fun f => fn_decl f (decl_toks (TFn rt ps va) (Some n) ++ rest)) (DOk (n, rt, ps, va, rest)).
 Proof. exact fn_roundtrip. Qed.
 
+(* A whole function statement: the declaration head as above, then throw(...)
+   or noexcept[(...)] with exactly the tokens written, then nothing, a body
+   (skipped whatever brace-balanced tokens it holds) or `= delete`; the flags
+   has_body / deleted are those written and parsing resumes right after. *)
+Theorem function_statement_decodes_partial : forall rt ps va n th ne nep en rest,
+  DeclSpec.wf (TFn rt ps va) -> tail_ok th ne nep en (after_tail en rest) ->
+  ev (fun f => fn_stmt f (decl_toks (TFn rt ps va) (Some n) ++ spec_toks th ne nep ++ ending_toks en ++ after_tail en rest))
+     (DOk (n, rt, ps, va, tail_of th ne en, rest)).
+Proof. exact fn_stmt_roundtrip. Qed.
+
 (* An enumerator list `{ A, B = expr, C }` (a trailing ',' allowed): every
    enumerator is reported once, in order, with exactly the tokens of its value
    (any token-level expression: brackets nested, '<' '>' free), for lists of any
@@ -97,6 +107,7 @@ Print Assumptions specifier_order_irrelevant.
 Print Assumptions specifier_flags_are_memberships.
 Print Assumptions variable_statement_decodes_partial.
 Print Assumptions function_declaration_decodes_partial.
+Print Assumptions function_statement_decodes_partial.
 Print Assumptions enumerators_reported_exactly_partial.
 Print Assumptions items_land_where_written.
 
